@@ -2702,7 +2702,8 @@ def _init_modules():
                                                      'lru_cache': Opaque('functools.lru_cache'), 'cache': Opaque('functools.cache'),
                                                      'wraps': Opaque('functools.wraps'), 'reduce': Opaque('functools.reduce')})
     ospath = ModuleStub('os.path', {n: _concrete_or_external('os.path.' + n, getattr(os.path, n) if n in ('join', 'dirname', 'basename') else None)
-                                    for n in ['join', 'dirname', 'basename', 'abspath', 'exists', 'isdir', 'getsize', 'isfile']})
+                                    for n in ['join', 'dirname', 'basename', 'abspath', 'exists', 'isdir', 'getsize', 'isfile', 'realpath', 'normpath', 'normcase',
+                                              'relpath', 'isabs', 'splitext', 'split', 'expanduser', 'samefile', 'getmtime', 'islink']})
     _MODULES['os'] = ModuleStub('os', {'path': ospath, 'getcwd': _concrete_or_external('os.getcwd', None)})
     _MODULES['re'] = ModuleStub('re', {n: _concrete_or_external('re.' + n, getattr(_re, n)) for n in ['sub', 'split', 'compile', 'match']})
     _MODULES['struct'] = ModuleStub('struct', {
